@@ -14,6 +14,7 @@ import (
 	"fmt"
 	"math"
 	"math/rand"
+	"os"
 	"path/filepath"
 	"sort"
 	"strconv"
@@ -590,6 +591,10 @@ func runC02(r *hx.Result, cfg hx.Config) {
 		"tidwall/rtree Search reports exactly the entries whose float32 rectangle intersects the target (abstract container; sampled in-package against Model/Search.geo_search)",
 		"SPARSE leaf rectangles (float64 quad split) are not modelled: c02_sparse_sound holds for any leaves",
 	}
+	if os.Getenv("C02_ONLY") == "areas" { // development aid: only section (iv)
+		areas(r, cfg)
+		return
+	}
 	rng := rand.New(rand.NewSource(cfg.Seed))
 	rounding(r, cfg, rng)
 	extremeClusters(r, cfg, rng)
@@ -597,6 +602,7 @@ func runC02(r *hx.Result, cfg hx.Config) {
 	blackBox(r, cfg, rng)
 	extremeClustersBB(r, cfg, rng)
 	overlappedSearch(r, cfg, rng)
+	areas(r, cfg) // (iv) query-area parsers: areas.go (own PRNG stream)
 }
 
 // ---------------------------------------------------------------- clusters inside one float32 cell at the extreme
